@@ -30,6 +30,13 @@ CHECKS["C04"] = (
     "5.C04",
 )
 
+CHECKS["C02"] = (
+    "bounded symbolic execution (CrossHair+z3): condition strings from symbolic selectors through the real pyparsing grammar/postprocess vs an independent recursive-descent parser, equality of the two boolean functions decided by the solver over a symbolic truth assignment",
+    "All flat expressions of 1..4 operands with and/or, stacked 'not', one optional (negated) parenthesised span; 27 tricky detection names in 8 contexts; 18 selector patterns x 3 quantifiers x all subsets of 6 detection names. For each explored string the solver decides equality of real and reference tree for ALL truth assignments (one query). Each condition text is parsed twice with different detection contents so that parse-cache leakage is visible.",
+    TB,
+    "5.C02",
+)
+
 NOT_APPLICABLE = {}
 
 ALL = [f"C{n:02d}" for n in range(1, 21)]
